@@ -333,18 +333,18 @@ def expandSeq (rec : Instruction → Outcome (Option (List Instruction))) :
     | .outOfFuel => .outOfFuel
 
 /-- `Calibrations::expand_inner` + `recursively_expand_inner` (calibration.rs:393-607), instruction list
-only.  `prev` = `previous_calibrations` (newest first, calibration.rs:516-518).  One unit of fuel per level
-of the Rust recursion. -/
-def expandInnerWith (cals : Cals) : Nat → List Instruction → Instruction →
-    Outcome (Option (List Instruction))
+only.  `prev` = the KEYS of `previous_calibrations` (newest first, calibration.rs:516-518): the breadcrumbs
+are only ever tested for membership (`contains`, 399), so the model carries their keys.  One unit of fuel per
+level of the Rust recursion. -/
+def expandInnerWith (cals : Cals) : Nat → List κ → Instruction → Outcome (Option (List Instruction))
   | 0, _, _ => .outOfFuel
   | fuel + 1, prev, i =>
-    if (prev.map E.key).contains (E.key i) then .recursiveCalibration i      -- 399-401
+    if prev.contains (E.key i) then .recursiveCalibration i                  -- 399-401
     else
       match oneStep E S cals i with
       | none => .ok none                                                       -- 605
       | some (body, _) =>
-        match expandSeq (expandInnerWith cals fuel (i :: prev)) body with       -- 516-520, 540-542
+        match expandSeq (expandInnerWith cals fuel (E.key i :: prev)) body with -- 516-520, 540-542
         | .ok out => .ok (some out)
         | .recursiveCalibration j => .recursiveCalibration j
         | .outOfFuel => .outOfFuel
@@ -352,7 +352,7 @@ def expandInnerWith (cals : Cals) : Nat → List Instruction → Instruction →
 /-- `Calibrations::expand(instruction, previous_calibrations)` (calibration.rs:363-370) as the code is. -/
 def expandInner (cals : Cals) (fuel : Nat) (prev : List Instruction) (i : Instruction) :
     Outcome (Option (List Instruction)) :=
-  expandInnerWith E codeSubst cals fuel prev i
+  expandInnerWith E codeSubst cals fuel (prev.map E.key) i
 
 end
 
